@@ -141,17 +141,19 @@ class CharSet:
         return self.iv[0][0] if self.iv else None
 
     def sample(self):
-        """a readable member: prefer ASCII alphanumerics, then printable ASCII, then the least code point"""
+        """the least member in the fixed reader-friendly total order `char_key`
+        (digits < lower case < upper case < "_-.,/ " < other printable ASCII <
+        ASCII controls < everything else by code point)"""
         if not self.iv:
             return None
-        for pref in ("0123456789", "abcdefghijklmnopqrstuvwxyzABCDEFGHIJKLMNOPQRSTUVWXYZ", "_-.,/ "):
-            for ch in pref:
-                if ord(ch) in self:
-                    return ord(ch)
-        for c in range(33, 127):
-            if c in self:
-                return c
-        return self.iv[0][0]
+        best = None
+        for a, b in self.iv:
+            if a > 127:
+                break
+            for c in range(a, min(b, 127) + 1):
+                if best is None or char_key(c) < char_key(best):
+                    best = c
+        return best if best is not None else self.iv[0][0]
 
     def describe(self, limit=8):
         parts = []
@@ -166,6 +168,25 @@ class CharSet:
 
 
 CharSet.EMPTY = CharSet()
+
+_PUNCT = "_-.,/ "
+
+
+def char_key(c):
+    if c < 128:
+        ch = chr(c)
+        if ch.isdigit():
+            return (0, c)
+        if ch.islower():
+            return (1, c)
+        if ch.isupper():
+            return (2, c)
+        if ch in _PUNCT:
+            return (3, _PUNCT.index(ch))
+        if 32 < c < 127:
+            return (4, c)
+        return (5, c)
+    return (6, c)
 
 
 def _cp(c):
@@ -588,26 +609,12 @@ class Alphabet:
             self.classes.append(CharSet(iv))
             self._sig.append(sig)
         # deterministic, reader-friendly order: classes with ASCII alnum samples first
-        order = sorted(range(len(self.classes)), key=lambda i: self._rank(self.classes[i]))
+        order = sorted(range(len(self.classes)), key=lambda i: char_key(self.classes[i].sample()))
         self.classes = [self.classes[i] for i in order]
         self._sig = [self._sig[i] for i in order]
         self._idx = {s: i for i, s in enumerate(sets)}
         self.is_newline = [c == NEWLINE for c in self.classes]
         self.samples = [c.sample() for c in self.classes]
-
-    @staticmethod
-    def _rank(cs):
-        s = cs.sample()
-        ch = chr(s)
-        if ch.isascii() and ch.isalnum():
-            return (0, s)
-        if 32 < s < 127:
-            return (1, s)
-        if s == 32:
-            return (2, s)
-        if s < 128:
-            return (3, s)
-        return (4, s)
 
     def member(self, cs, k):
         i = self._idx.get(cs)
@@ -662,6 +669,88 @@ def compare(a: Acceptor, b: Acceptor, extra_sets=(), region=None, max_states=200
             note(st, w)
             dq.append((st, w))
     return res, alpha
+
+
+def canonical_dfa(acc, extra_sets=(), max_states=20000):
+    """Minimal DFA of an acceptor over the language's own symbol-equivalence
+    classes, numbered canonically.  Returns (groups, table, accepting) where
+    groups is a list of CharSets (canonical order), table[i][g] the successor
+    of state i (state 0 initial), accepting a list of bools.  The result
+    depends on the *language* only, not on how the pattern is spelled."""
+    alpha = Alphabet([acc], extra_sets)
+    nk = len(alpha.classes)
+    init = acc.initial()
+    idx = {init: 0}
+    states = [init]
+    trans = []
+    i = 0
+    while i < len(states):
+        row = []
+        for k in range(nk):
+            st = states[i]
+            n = acc.step(st, alpha, k) if st else st
+            if not n:
+                n = None
+            if n not in idx:
+                idx[n] = len(states)
+                states.append(n)
+                if len(states) > max_states:
+                    raise Unsupported("DFA too large")
+            row.append(idx[n])
+        trans.append(row)
+        i += 1
+    accepting = [bool(st) and acc.accepting(st) for st in states]
+    # Moore refinement
+    part = [1 if a else 0 for a in accepting]
+    while True:
+        sig = {}
+        new = []
+        for q in range(len(states)):
+            key = (part[q],) + tuple(part[t] for t in trans[q])
+            new.append(sig.setdefault(key, len(sig)))
+        if len(sig) == len(set(part)):
+            part = new
+            break
+        part = new
+    nblocks = len(set(part))
+    btrans = {}
+    bacc = {}
+    for q in range(len(states)):
+        btrans[part[q]] = [part[t] for t in trans[q]]
+        bacc[part[q]] = accepting[q]
+    # merge symbol classes with identical columns
+    cols = {}
+    for k in range(nk):
+        col = tuple(btrans[b][k] for b in range(nblocks))
+        cols.setdefault(col, []).append(k)
+    groups = []
+    for col, ks in cols.items():
+        cs = CharSet.EMPTY
+        for k in ks:
+            cs = cs | alpha.classes[k]
+        groups.append((cs, ks[0]))
+    groups.sort(key=lambda g: char_key(g[0].sample()))
+    # canonical numbering by BFS in group order
+    order = {part[0]: 0}
+    queue = deque([part[0]])
+    while queue:
+        b = queue.popleft()
+        for cs, k in groups:
+            t = btrans[b][k]
+            if t not in order:
+                order[t] = len(order)
+                queue.append(t)
+    inv = sorted(order, key=order.get)
+    table = [[order[btrans[b][k]] for cs, k in groups] for b in inv]
+    return [g[0] for g in groups], table, [bacc[b] for b in inv]
+
+
+def fingerprint(acc, extra_sets=()):
+    """short stable identifier of the accepted language"""
+    import hashlib
+    groups, table, accepting = canonical_dfa(acc, extra_sets)
+    blob = repr(([g.iv for g in groups], table, accepting)).encode()
+    return hashlib.sha1(blob).hexdigest()[:10]
 
 
 def equivalent(a, b):
